@@ -47,7 +47,7 @@ def run(R):
                  "reading: a claim paid out to its own owner, or released by the payee the owner recorded (identity verifier), is not a reduction; a custody reward share paid to a LISTED custodian who votes is part of the owner's request",
                  "threshold-type authorisations are decided exactly from the observed records (2*held >= supply; approvals*100 >= mode*custodians); the generator sweeps both sides of every boundary (odd/even recovery-token supply via the real burn message, supply 1 and 3, custody (n,mode) pairs around k/n)",
                  "block phase: a user's claim records (every kind, per owner and denom) may only grow, be paid to the owner, or be converted into staked shares of the same owner at the pool's rate read from the pre-state; the generator drives auto-compounding (RegisterDelegator + SetCompoundInfo, AllDenom true/false, 1..3 denoms, fees and recorded rewards in ukex/ubtc/xeth, ubtc StakeMin raised in some histories, interval 1-2 blocks). A reward credited and erased inside one BeginBlock is invisible to a pre/post monitor; recorded leftovers from earlier rounds make the erasure visible. Not driven: successful dApp bootstrap (bonds -> LP entitlements), pool slashing",
-                 "custody: the threshold is judged from the harness' ghost record (listed custodians from the accepted settings messages; DISTINCT custodians whose approval of the transfer was accepted), never from the module's vote store; hashes are sent in lower / upper / mixed case and custodians repeat their approvals; a repeat that is paid or counted is reported under its own clauses",
+                 "custody: the threshold is judged from the harness' ghost record (the custodian list IN FORCE follows every accepted add / remove / drop message; former members approve and decline after their removal, members added after the request act too; approvals of since-removed members do not count; DISTINCT custodians whose approval of the transfer was accepted), never from the module's vote store; hashes are sent in lower / upper / mixed case and custodians repeat their approvals; a repeat that is paid or counted is reported under its own clauses",
                  "rotation: per claim kind and denom the old and new address together must hold after the transaction exactly what they held before; the rotated accounts (a4 by secret, with and without a separate fee payer; a0 by recovery-token holder) own every monitored claim kind; multi-signer transactions (two signers / two messages, separate signing fee payer, unsigned fee payer) are in the stream",
                  "genesis round trip is an operation of every history (scripted once, plus at random): real ExportGenesis / store wipe / InitGenesis of multistaking, spending, recovery and (every other history) gov, with every exported list PERMUTED (genesis validation imposes no order); right afterwards no balance and no claim record may differ, and the history continues under the same clauses. Not round-tripped (C12 lost:* classes, pinned in harness/cmd/c03/genesis.go): collectives, layer2, custody; carried over byte for byte: multistaking pool-delegator index and compound info, recovery token-holder registrations",
                  "escrow: after every step, per escrowed claim kind (tips/gov, undelegations/multistaking, dApp bonds/layer2, rewards/fee collector, holder rewards/recovery) and denom, the module's balance must cover the pending entries of the accounts that did not sign; the step that opens or widens a shortfall is reported. A settlement by the rightful party of an entry pending in the harness' ghost record (accepted request / handle / cancel / edit / rotation messages) must be accepted. The tip stream keeps 4+ requesters pending at once, interleaves re-registration (same value, new value, other key), deletion and rotation between creation and settlement, and repeats every settlement (handle x3, cancel after handle, cancel twice, claim / withdraw twice)",
